@@ -67,6 +67,89 @@ def corpus_work(name):
         raise core.HarnessError("attribute oracle failed on %s: %r" % (name, e))
 
 
+# ---- (iii) generated parts: every attribute-relevant construct in every spelling
+DESTS = ["RdV", "ReV", "RxV", "RyV", "RddV", "RxxV", "PdV", "PeV", "PxV", "CdV", "MxV", "R0", "R31", "R1:0", "P0", "P1", "P2", "P3", "C4", "M0"] + [
+    "HEX_REG_ALIAS_" + a for a in ("PC", "PKTCOUNT", "PKTCNTLO", "LR", "SP", "FP", "SA0", "LC0", "USR", "GP", "UGP", "M0", "CS0", "UPCYCLE", "FRAMEKEY", "UTIMER")
+]
+ASSIGN_FORMS = ["%s = RsV;", "%s = %s + 1;", "%s |= RsV;", "%s = mem_load_u8(RsV);", "RdV = (%s = RsV);"]
+NEW_SRCS = ["PuN", "PtN", "NsN", "P0_NEW", "P3_NEW", "R0_NEW", "R31_NEW", "HEX_REG_ALIAS_LR_NEW", "HEX_REG_ALIAS_PC_NEW", "HEX_REG_ALIAS_USR_NEW"]
+PLAIN = ["RdV = RsV;", "int32_t p = RsV; p = p + 1; RdV = p;", "int32_t Pq = RsV; Pq = 3; RdV = Pq;", "RdV = RsV ? RtV : 1;", "for (i = 0; i < 2; i++) { RdV = i; }", "RdV = clz32(RsV);", "RdV = PuV;", "RdV = P0;", "RdV = HEX_REG_ALIAS_PC;", ";"]
+MEM = ["RdV = mem_load_%s%d(RsV);" % (sg, w) for sg in "su" for w in (8, 16, 32, 64)] + ["mem_store_u%d(RsV, RtV);" % w for w in (8, 16, 32, 64)] + ["RdV = mem_load_u8(mem_load_u32(RsV));", "mem_store_u8(RsV, mem_load_u8(RtV));"]
+JUMPS = ["JUMP(RsV);", "JUMP(riV);", "JUMP(HEX_REG_ALIAS_LR);", "JUMP(RsV ? riV : RtV);"]
+PART_CONTEXTS = [("top", "{ %s }"), ("if", "{ if (RsV) { %s } }"), ("else", "{ if (RsV) { RdV = 1; } else { %s } }"), ("for", "{ for (i = 0; i < 2; i++) { %s } }"), ("block", "{ RdV = 0; { %s } }"), ("after", "{ RdV = RtV; %s }")]
+
+
+def part_features(tier):
+    fs = []
+    for d in DESTS:
+        for f in (ASSIGN_FORMS if tier == "thorough" else ASSIGN_FORMS[:3]):
+            fs.append(("w:" + d, f.replace("%s", d)))
+    for n in NEW_SRCS:
+        fs.append(("new:" + n, "RdV = %s;" % n))
+        fs.append(("new-cond:" + n, "RdV = (%s & 1) ? RsV : RtV;" % n))
+    for i, x in enumerate(PLAIN):
+        fs.append(("plain:%d" % i, x))
+    for x in MEM:
+        fs.append(("mem:" + x.split("(")[0][-12:], x))
+    for x in JUMPS:
+        fs.append(("jump", x))
+    return fs
+
+
+def part_space(tier):
+    fs = part_features(tier)
+    out = []
+    for tag, f in fs:
+        for cn, cx in PART_CONTEXTS:
+            out.append(((tag, cn), cx % f))
+    # ordered pairs of one representative per construct class
+    reps = [f for f in fs if f[0] in ("w:RdV", "w:PdV", "w:P1", "w:P3", "w:HEX_REG_ALIAS_PKTCOUNT", "w:HEX_REG_ALIAS_LR", "new:PuN", "new:P0_NEW", "plain:0", "plain:3", "jump") or f[0].startswith("mem:")]
+    seen_cls = set()
+    reps2 = []
+    for tag, f in reps:
+        key = (tag, f.split("=")[0] if tag.startswith("w:") else f[:14])
+        if tag in seen_cls and not tag.startswith("mem:"):
+            continue
+        seen_cls.add(tag)
+        reps2.append((tag, f))
+    if tier != "thorough":
+        reps2 = [r for r in reps2 if not r[0].startswith("mem:")] + [r for r in reps2 if r[0].startswith("mem:")][:2]
+    for t1, f1 in reps2:
+        for t2, f2 in reps2:
+            out.append(((t1, t2, "pair"), "{ %s %s }" % (f1, f2)))
+            out.append(((t1, t2, "pair-if"), "{ if (RtV) { %s } else { %s } }" % (f1, f2)))
+    seen = set()
+    res = []
+    for tag, t in out:
+        if t not in seen:
+            seen.add(t)
+            res.append((tag, t))
+    return res
+
+
+def part_work(item):
+    tag, text = item
+    comp = _JOB["comp"]
+    pc = _JOB["pc"]
+    r = pc.get(text)
+    if r[0] != "ok":
+        return ("parse-rejected",)
+    v = drive.transform_fresh(comp, "V13_gen", [r[1]], [text])
+    if v[0] != "ok":
+        return ("rejected", v[1])
+    try:
+        bad = check_meta(v[1]["meta"], [text])
+    except cparse_errors() as e:
+        return ("oracle-cannot-read", repr(e))
+    return ("ok", v[1]["meta"][0], bad)
+
+
+def cparse_errors():
+    from vf import cparse
+
+    return (cparse.CSyntaxError,)
+
+
 def alphabet():
     evs = []
     for n, texts in BEHAVIOURS.items():
@@ -102,6 +185,26 @@ def run(ctx):
     u = RZILInstruction.get_unimplemented_rzil_instr("X")
     if u.meta != [["HEX_IL_INSN_ATTR_INVALID"]]:
         ctx.report({"why": "unimplemented instruction does not report INVALID", "meta": u.meta}, None, what="get_unimplemented_rzil_instr: %s" % u.meta)
+    # ---- (iii) generated parts from a fresh state
+    pitems = part_space(ctx.tier)
+    ppc = drive.ParseCache("c13-parts")
+    ppc.ensure([t for _g, t in pitems], seed=ctx.seed)
+    ppc.save()
+    _JOB.update(comp=comp, pc=ppc)
+    pres = core.pmap(part_work, pitems, seed=ctx.seed)
+    n_gen_ok = n_gen_rej = 0
+    gen_attr_sets = set()
+    for (tag, text), r in zip(pitems, pres):
+        if r[0] == "oracle-cannot-read":
+            raise core.HarnessError("attribute oracle cannot read generated part %r: %s" % (text, r[1]))
+        if r[0] != "ok":
+            n_gen_rej += 1
+            continue
+        n_gen_ok += 1
+        gen_attr_sets.add(tuple(sorted(r[1])))
+        if r[2]:
+            ctx.report({"part": text, "tag": list(tag), "meta": r[1], "why": r[2]}, None, what="generated part %s: %s" % (text, r[2]))
+    ctx.log("generated parts: %d accepted, %d rejected, %d distinct attribute sets" % (n_gen_ok, n_gen_rej, len(gen_attr_sets)))
     # ---- (ii) histories
     depth = 3 if ctx.tier == "quick" else 4
     comps = {"A": comp, "B": drive.get_compiler("stmt", fresh=True)}
@@ -137,6 +240,9 @@ def run(ctx):
             fixpoint_reached=(sr["frontier_left"] == 0),
             levels=sr["levels"],
             events=len(alpha),
+            generated_parts_checked=n_gen_ok,
+            generated_parts_rejected=n_gen_rej,
+            generated_parts_distinct_attribute_sets=len(gen_attr_sets),
             corpus_parts_checked=n_parts,
             corpus_instructions_with_attributes=n_nontrivial,
             explanation="every transition is a real transform_insn call replayed from S0 in a forked child; the corpus half compiles every accepted instruction from the same fresh state",
